@@ -25,6 +25,21 @@ pub fn handle(words: &[&str]) -> String {
     format!("{re} {bits}")
 }
 
+/// `rxintervals REGEXTYPE PATTERN`: the -regex interval check (1: bounds valid, intervals where the syntax allows them)
+pub fn handle_rxintervals(words: &[&str]) -> String {
+    let [ty, pat] = words else {
+        return "badcase".into();
+    };
+    let Ok(p) = String::from_utf8(unhex(pat)) else {
+        return "badutf8".into();
+    };
+    match findutils::find::matchers::regex_verif::intervals_ok(&p, ty) {
+        Some(true) => "1".into(),
+        Some(false) => "0".into(),
+        None => "badcase".into(),
+    }
+}
+
 /// `rxclasses REGEXTYPE PATTERN`: the -regex bracket-expression check (1: closed, classes and symbols well-formed)
 pub fn handle_rxclasses(words: &[&str]) -> String {
     let [ty, pat] = words else {
